@@ -209,15 +209,44 @@ def step (st : St) (op impl : String) : St × StepOut :=
       | none => (st, { model := "no-such-subscription" })
     | some _, none => (st, { model := "-", oracle := if impl == "-" then [] else ["subsequence"] })
     | _, _ => (st, { model := "bad-op" })
+  | ["dispatch", ad, dead, subs, batch, dying] =>
+    -- a subscriber dies in the middle of the batch: only the step machine can say what happens
+    let dy := match splitOnChar dying ':' with
+      | [i, n] => do pure (← i.toNat?, ← n.toNat?)
+      | _ => none
+    match parseBool? ad, natList? dead, listOf? subs parseSpec?, listOf? batch parseItem?, dy with
+    | some ad, some dead, some subs, some batch, some (did, dn) =>
+      let (pc, gone) := nextSeg ad subs [] batch
+      let st0 : V2 Nat Nat := { allowDup := ad, dead := if dn == 0 then did :: dead else dead, pc := pc, gone := gone }
+      let fuel := 1000 + 4 * (batch.length + 1) * (subs.length + batch.length + 1)
+      let rec go : Nat → V2 Nat Nat → List (Call Nat) → V2 Nat Nat × List (Call Nat)
+        | 0, st, acc => (st, acc)
+        | f + 1, st, acc =>
+          match st.pc with
+          | .disp .. =>
+            let (st', c) := st.task
+            let acc' := acc ++ c.toList
+            -- the subscriber actor exits once `dn` sends have been made
+            let st' := if c.isSome && acc'.length == dn then st'.step (.exit did) else st'
+            go f st' acc'
+          | _ => (st, acc)
+      let (st1, calls) := go fuel st0 []
+      let fin := match st1.pc with | .top _ => true | _ => false
+      (st, { model := if fin then s!"{showCallsOk calls} | {showNats (st1.pc.subs.map (·.key))}" else "out-of-fuel",
+             nontrivial := decide (calls.length > 1) && calls.any (!·.ok) })
+    | _, _, _, _, _ => (st, { model := "bad-op" })
   | ["dispatch", ad, dead, subs, batch] =>
     match parseBool? ad, natList? dead, listOf? subs parseSpec?, listOf? batch parseItem? with
     | some ad, some dead, some subs, some batch =>
+      -- the closed form (`Props/C16.lean: v2_dispatch_batch_closed_form` ties it to the machine)
+      let r := dispatchBatch ad dead subs [] [] batch
+      -- and, as a cross-check of that theorem on this very input, the machine itself
       let (pc, gone) := nextSeg ad subs [] batch
       let st0 : V2 Nat Nat := { allowDup := ad, dead := dead, pc := pc, gone := gone }
       let (st1, calls) := finishBatch (1000 + 4 * (batch.length + 1) * (subs.length + batch.length + 1)) st0 []
-      let fin := match st1.pc with | .top _ => true | _ => false
-      (st, { model := if fin then s!"{showCallsOk calls} | {showNats (st1.pc.subs.map (·.key))}" else "out-of-fuel",
-             nontrivial := decide (calls.length > 1) })
+      let same := showCallsOk calls == showCallsOk r.2.2 && st1.pc.subs.map (·.key) == r.1.map (·.key)
+      (st, { model := if same then s!"{showCallsOk r.2.2} | {showNats (r.1.map (·.key))}" else "closed-form-differs-from-machine",
+             nontrivial := decide (r.2.2.length > 1) })
     | _, _, _, _ => (st, { model := "bad-op" })
   | _ => (st, { model := "bad-op" })
 
